@@ -38,8 +38,14 @@ TrajBases == {<<<<Const(0), Id(0)>>, <<Const(1), Id(1)>>>>, <<<<Id(0), Id(1)>>, 
 TConfigs == {[d |-> 2, m |-> m, seed |-> seed, basis |-> b, npairs |-> np, traj |-> a] :
                 m \in (IF Level = 1 THEN {5} ELSE {4, 5, 6}), seed \in 1..(IF Level = 1 THEN 2 ELSE 4), np \in {1, 3},
                 b \in TrajBases, a \in 1..Len(RotMaps)}
+\* long trajectories (many more snapshots than basis functions: the regime in which implementations switch to Gram-matrix
+\* based decompositions) of the norm-preserving quarter rotation, with a badly scaled basis function (singular values of
+\* Psi_x between the 1e-3 cut and 3e-2)
+LongConfigs == {[d |-> 2, m |-> m, seed |-> seed, npairs |-> 1, traj |-> 2,
+                 basis |-> <<<<Const(0), Mono(0, 1, <<1, sc>>)>>, <<Const(1), Id(1)>>>>] :
+                   m \in (IF Level = 1 THEN {208} ELSE {208, 420}), seed \in {1, 2}, sc \in {24, 48}}
 EIx(c) == c.d * 3 + c.m * 5 + c.seed * 7 + Len(c.basis) * 11 + Len(c.basis[1]) * 13 + c.basis[1][1].idx + c.npairs
-EInit == cfg \in {c \in EConfigs \cup TConfigs : (EIx(c) + (IF "traj" \in DOMAIN c THEN c.traj ELSE 0)) % NShards = Shard} /\ out = <<>>
+EInit == cfg \in {c \in EConfigs \cup TConfigs \cup LongConfigs : (EIx(c) + (IF "traj" \in DOMAIN c THEN c.traj ELSE 0)) % NShards = Shard} /\ out = <<>>
 EBuild ==
     /\ out = <<>>
     /\ LET x == IF "traj" \in DOMAIN cfg THEN TrajData(cfg.traj, cfg.seed, cfg.m)
